@@ -563,6 +563,8 @@ def run(h: Harness):
         except Exception:  # noqa: BLE001
             order = None
 
+        declared_limit = rep.failures_limit     # (as configured: the model is told what the user set, not what the object holds later)
+
         def ml_stack(h, site, geno, dna, res, nontrivial, first_calls):
-            h.agree(site, ["map_stack", line_spec, order, rep.failures_limit, dna], res, nontrivial=nontrivial)
+            h.agree(site, ["map_stack", line_spec, order, declared_limit, dna], res, nontrivial=nontrivial)
         check_rep(h, "Stack", rep, spec, b, shared, rng, ml_stack if (order is not None and not degenerate) else None)
